@@ -485,7 +485,7 @@ func ruleV4(c *Ctx) {
 		st := m.structOf(pkgAPI, tn)
 		for i := 0; i < st.NumFields(); i++ {
 			if st.Field(i).Exported() {
-				want = append(want, prefix+"."+st.Field(i).Name())
+				want = append(want, prefix+"."+fname(st.Field(i)))
 			}
 		}
 	}
